@@ -240,12 +240,20 @@ def gen_seqjoint(rng, sim):
     modes = list(range(d))
     rng.shuffle(modes)
     ka = rng.randrange(1, d)
+    if sim != "PassiveSimulator" and rng.chance(0.2):
+        ka = 0  # a single measurement listing every mode in a seeded order, against the sorted listing
     A = modes[:ka]
     rest = modes[ka:]
     B = rest[: rng.randrange(1, len(rest) + 1)]
-    # modes are listed in increasing order inside each measurement: how a simulator orders the
-    # entries of one measurement's outcome for an unsorted mode tuple is not C03's subject
-    A, B = sorted(A), sorted(B)
+    # PureFock / Fock / fermionic Fock report the entries of one measurement's outcome in the order the
+    # modes were listed (checked on the pinned tree); PassiveSimulator reports them in increasing mode
+    # order whatever the listing, a labelling convention C03 does not fix - so for it the modes are listed
+    # in increasing order, for the others in a seeded (often non-monotone) order
+    if sim == "PassiveSimulator" or rng.chance(0.35):
+        A, B = sorted(A), sorted(B)
+    if sim != "PassiveSimulator" and rng.chance(0.5):
+        B = rest[:]  # measure *every* remaining mode in the second measurement, in listing order
+        rng.shuffle(B)
     g = gen.G(rng, sim, {"adaptive": False})
     g.active = sorted(rest)
     U = []
@@ -260,7 +268,7 @@ def gen_seqjoint(rng, sim):
         # consecutive refers to positions among the *active* modes; keep U only if it is consecutive in both programs
         U = [u for u in U if _consecutive_in(u["modes"], sorted(rest)) and _consecutive_in(u["modes"], list(range(d)))]
     pnm = lambda m: {"type": "ParticleNumberMeasurement", "modes": list(m), "params": {}}  # noqa: E731
-    seq = dict(subject, program=prog + [pnm(A)] + U + [pnm(B)], shots=None)
+    seq = dict(subject, program=prog + ([pnm(A)] if A else []) + U + [pnm(B)], shots=None)
     joint = dict(subject, program=prog + copy.deepcopy(U) + [pnm(sorted(A + B))], shots=None)
     return seq, joint, A, B
 
